@@ -9,6 +9,8 @@
 mod a64;
 mod arm32;
 mod injector_core;
+#[cfg(not(sim_no_realcore))]
+mod realcore;
 mod out;
 mod rng;
 mod x86;
@@ -710,6 +712,87 @@ fn run_c13sim(ctx: &Ctx) {
     out::summary(&J::new().n("evaluations_total", total).n("distinct_instruction_words", words.seen.len()).b("macos_variant", MACOS).b("release", !cfg!(debug_assertions)));
 }
 
+// ===================================================================================== C02: the real PatchGuard on host memory
+/// The REAL `PatchGuard` of common.rs (copied unmodified) is created by hand, the way the 32-bit ARM patcher creates
+/// it (no trampoline) and the way the others do (with a trampoline page), over a "patched" range in a host
+/// mapping, and dropped: the saved bytes must be back, byte for byte, nothing else in the two pages may differ,
+/// and a trampoline page must be gone.
+#[cfg(not(sim_no_realcore))]
+fn run_c02guard(ctx: &Ctx) {
+    use realcore::common::PatchGuard as RealGuard;
+    const PAGE: usize = 4096;
+    let mut total = 0u64;
+    for (idx, with_tramp) in [false, true].iter().enumerate() {
+        let idx = idx as u64;
+        if !ctx.mine(idx) {
+            continue;
+        }
+        let class = format!("real-guard/{}", if *with_tramp { "with-trampoline" } else { "no-trampoline (32-bit ARM style)" });
+        out::intent(idx, &class, &J::new().s("crash_sig", "real-guard"));
+        let mut rng = Rng::new(ctx.seed ^ rng::hash64(idx ^ 0xC02));
+        let mut bad: Option<J> = None;
+        let n = if ctx.thorough { 20000 } else { 2000 };
+        for _ in 0..n {
+            let map = unsafe { libc::mmap(std::ptr::null_mut(), 2 * PAGE, libc::PROT_READ | libc::PROT_WRITE | libc::PROT_EXEC, libc::MAP_PRIVATE | libc::MAP_ANONYMOUS, -1, 0) };
+            if map == libc::MAP_FAILED {
+                continue;
+            }
+            let base = map as usize;
+            let region = unsafe { std::slice::from_raw_parts_mut(base as *mut u8, 2 * PAGE) };
+            for b in region.iter_mut() {
+                *b = rng.next() as u8;
+            }
+            let original: Vec<u8> = region.to_vec();
+            let len = *rng.pick(&[4usize, 5, 8, 12, 12, 12, 16]);
+            let off = match rng.below(4) {
+                0 => PAGE - 1 - rng.below(len as u64) as usize, // straddles the page boundary
+                1 => 2 * PAGE - len,                             // ends with the mapping
+                2 => 0,
+                _ => rng.below((2 * PAGE - len) as u64) as usize,
+            };
+            let saved = original[off..off + len].to_vec();
+            for k in 0..len {
+                region[off + k] = !original[off + k];
+            }
+            let (jit, jit_size) = if *with_tramp {
+                let j = unsafe { libc::mmap(std::ptr::null_mut(), PAGE, libc::PROT_READ | libc::PROT_WRITE | libc::PROT_EXEC, libc::MAP_PRIVATE | libc::MAP_ANONYMOUS, -1, 0) };
+                (j as *mut u8, PAGE)
+            } else {
+                (std::ptr::null_mut(), 0)
+            };
+            let g = RealGuard::new((base + off) as *mut u8, saved, len, jit, jit_size);
+            drop(g);
+            total += 1;
+            let now = unsafe { std::slice::from_raw_parts(base as *const u8, 2 * PAGE) };
+            if now != &original[..] {
+                let first = (0..2 * PAGE).find(|k| now[*k] != original[*k]).unwrap();
+                bad = Some(J::new().n("patched_offset", off).n("patch_len", len).n("first_differing_offset", first).b("inside_the_patched_range", first >= off && first < off + len));
+            }
+            if *with_tramp && bad.is_none() {
+                let mut v = 0u8;
+                if unsafe { libc::mincore(jit as *mut libc::c_void, PAGE, &mut v as *mut u8) } == 0 {
+                    bad = Some(J::new().s("what", "the trampoline page is still mapped after the guard was dropped"));
+                    unsafe { libc::munmap(jit as *mut libc::c_void, PAGE) };
+                }
+            }
+            unsafe { libc::munmap(map, 2 * PAGE) };
+            if bad.is_some() {
+                break;
+            }
+        }
+        match bad {
+            None => out::outcome(idx, &class, Verdict::Held, "", &J::new().n("guards_dropped", total)),
+            Some(d) => out::outcome(idx, &class, Verdict::Violated, if *with_tramp { "real-guard-did-not-restore-or-release" } else { "guard-without-trampoline-did-not-restore-the-function" }, &d),
+        }
+    }
+    out::summary(&J::new().n("evaluations_total", total).n("real_guards_dropped", total));
+}
+#[cfg(sim_no_realcore)]
+fn run_c02guard(_ctx: &Ctx) {
+    eprintln!("HARNESS-ERROR the real common.rs is not part of this build");
+    std::process::exit(2);
+}
+
 // ===================================================================================== C01 (simulation part), C10 amd64 stub bytes
 /// Order of the writes of the last install: the entry may only be redirected once the trampoline holds its code;
 /// in between any thread calling the function would run whatever the fresh page contains.
@@ -1091,6 +1174,7 @@ fn main() {
         "c15" => run_c15(&ctx),
         "c16" => run_c16(&ctx),
         "c13sim" => run_c13sim(&ctx),
+        "c02guard" => run_c02guard(&ctx),
         "c01sim" => run_c01sim(&ctx),
         "c02sim" => run_c02sim(&ctx),
         "c11sim" => run_c11sim(&ctx),
